@@ -169,8 +169,10 @@ def write_evidence(prop, tier, seed, coverage, wall_s, violations, assumptions):
 
 def write_replay(prop, payload):
     os.makedirs(os.path.join(VERIF, "replays"), exist_ok=True)
-    body = json.dumps(payload, indent=1, sort_keys=True)
-    h = hashlib.sha1(json.dumps(payload.get("case"), sort_keys=True).encode()).hexdigest()[:12]
+    # a replay must always be written: whatever is not JSON (bytes in a generated request) goes in as hex / text
+    enc = lambda o: o.hex() if isinstance(o, (bytes, bytearray)) else str(o)
+    body = json.dumps(payload, indent=1, sort_keys=True, default=enc)
+    h = hashlib.sha1(json.dumps(payload.get("case"), sort_keys=True, default=enc).encode()).hexdigest()[:12]
     path = os.path.join(VERIF, "replays", f"{prop}-{h}.json")
     open(path, "w").write(body + "\n")
     return path
